@@ -140,7 +140,7 @@ Section decl.
         (∃ i Ii ND, oi = Some i ∧ ifaces s !! i = Some Ii ∧ nodes s !! i_node Ii = Some ND ∧
            ((bus_has_node_named b (nd_name ND) ∧ cw = (Duplicated, WName)) ∨
             (bus_has_node_id b (nd_id ND) ∧ cw = (Duplicated, WNodeID)) ∨
-            (iface_sends i (λ M, bus_max_size < m_size M) ∧ cw = (TooBig, WMessageSize)) ∨
+            ((∃ B, buses s !! b = Some B ∧ iface_sends i (λ M, too_big B (m_size M) = true)) ∧ cw = (TooBig, WMessageSize)) ∨
             (iface_sends i (λ M, m_hasStatic M = true ∧ bus_carries b (has_static (m_static M))) ∧
              cw = (Duplicated, WCANID))))
     | BusRemoveNodeInterface b key =>
@@ -158,7 +158,7 @@ Section decl.
         (om = None ∧ cw = (Nil, WArgument)) ∨
         (∃ m M Ii, om = Some m ∧ msgs s !! m = Some M ∧ ifaces s !! i = Some Ii ∧
            ((iface_sends i (λ M', m_name M' = m_name M) ∧ cw = (Duplicated, WName)) ∨
-            (is_Some (i_parent Ii) ∧ bus_max_size < m_size M ∧ cw = (TooBig, WMessageSize)) ∨
+            ((∃ b B, i_parent Ii = Some b ∧ buses s !! b = Some B ∧ too_big B (m_size M) = true) ∧ cw = (TooBig, WMessageSize)) ∨
             (m_hasStatic M = true ∧ iface_sends i (has_static (m_static M)) ∧ cw = (Duplicated, WCANID)) ∨
             (m_hasStatic M = true ∧ (∃ b, i_parent Ii = Some b ∧ bus_carries b (has_static (m_static M))) ∧
              cw = (Duplicated, WCANID)) ∨
@@ -242,7 +242,9 @@ Inductive mutator :=
   | M_NewSignalType | M_NewSignalUnit | M_NewAttribute | M_NewCANIDBuilder | M_Clone
   | M_StandardSignal_SetType | M_StandardSignal_SetUnit | M_EnumSignal_SetEnum
   | M_AssignAttribute | M_RemoveAttributeAssignment | M_RemoveAllAttributeAssignments
-  | M_Bus_SetCANIDBuilder.
+  | M_Bus_SetCANIDBuilder
+  (* size of a message / type of a bus: what the size limit of an attach is about *)
+  | M_Message_UpdateSizeByte | M_Bus_SetType.
 
 Definition all_mutators : list mutator :=
   [ M_NewNetwork; M_NewBus; M_NewNode; M_NewMessage; M_NewSignalEnum; M_NewSignalEnumValue;
@@ -264,7 +266,7 @@ Definition all_mutators : list mutator :=
     M_NewSignalType; M_NewSignalUnit; M_NewAttribute; M_NewCANIDBuilder; M_Clone;
     M_StandardSignal_SetType; M_StandardSignal_SetUnit; M_EnumSignal_SetEnum;
     M_AssignAttribute; M_RemoveAttributeAssignment; M_RemoveAllAttributeAssignments;
-    M_Bus_SetCANIDBuilder ].
+    M_Bus_SetCANIDBuilder; M_Message_UpdateSizeByte; M_Bus_SetType ].
 
 (* the model operation(s) of a mutator, given sample arguments; [None]: not modelled *)
 Definition model_op (m : mutator) : option op :=
